@@ -229,3 +229,38 @@ def c12(ctx, rep):
     cfg_rules.rule_no_mutation_under_iteration(ctx, rep)
     cfg_rules.rule_edge_ownership(ctx, rep)
     generic_tables.rule_block(ctx, rep)
+
+
+from .rules import output_rules  # noqa: E402
+
+
+@prop("C17", "Decides the structural clauses of C17 (absence of classes of internal errors, each with a true positive in this code base): "
+             "(T-COMPLETE) every printer and the detect path with text and JSON output evaluated abstractly on 25 program shape "
+             "classes (dead code that branches or calls, loops, recursion, branch/call as last instruction, labels at end, empty "
+             "subroutines, back-to-back labels) complete without an exception of the analysed code; (T-CFG well-formedness) no stale "
+             "edges after pruning; (T-KIND/T-CMP totality) no RAISES row in any comparison table for constants a valid program can "
+             "contain; (T-DOT(context)) context lookups use the function's own blocks; (R-ITER). In the quick tier the fixpoint phase is "
+             "abstracted away (its equations are decided under C03); the thorough tier evaluates it on selected shapes. "
+             "Not decided: termination and absence of all exceptions on all programs.")
+def c17(ctx, rep):
+    output_rules.rule_outputs_complete(ctx, rep)
+    output_rules.rule_context_annotations(ctx, rep)
+    cfg_rules.rule_cfg_shapes(ctx, rep)
+    cfg_rules.rule_no_mutation_under_iteration(ctx, rep)
+    cmptables.rule_totality(ctx, rep)
+
+
+@prop("C18", "Decides the structural clauses of C18: (T-DOT(cfg)) node set, instruction rows and edge set of the cfg export equal the "
+             "global graph of an independent reference construction on 25 program shape classes; (T-DOT(subroutine-cfg)) per "
+             "subroutine nodes, edges and one call box per call site; (T-DOT(path)) the path DOT marks exactly the path's blocks; "
+             "(T-DOT(context)) annotations are the blocks' own contexts; (T-ENV) JSON envelope: success iff no error, count = number "
+             "of paths; (T-RENDER) filter removes exactly the matching paths; (T-CALLGRAPH). "
+             "Not decided: textual well-formedness of DOT/JSON for all inputs.")
+def c18(ctx, rep):
+    output_rules.rule_dot_full(ctx, rep)
+    output_rules.rule_dot_subroutines(ctx, rep)
+    output_rules.rule_path_highlight(ctx, rep)
+    output_rules.rule_context_annotations(ctx, rep)
+    output_rules.rule_json_envelope(ctx, rep)
+    detectors.rule_renderings(ctx, rep)
+    cfg_rules.rule_call_graph(ctx, rep)
